@@ -248,6 +248,33 @@ fn p2_programs(tier: Tier) -> Vec<Program> {
     pack("tuple1", Kind::Tuple(vec![FieldTy::U8]), literals(&["0"], if th { 3 } else { 2 }, true, true), &mut out);
     pack("tuple2", Kind::Tuple(vec![FieldTy::I32, FieldTy::SStr]), literals(&["0", "1"], if th { 4 } else { 3 }, true, th), &mut out);
     pack("tuple3", Kind::Tuple(vec![FieldTy::U8, FieldTy::I32, FieldTy::SStr]), literals(&["0", "1", "2"], if th { 4 } else { 3 }, true, false), &mut out);
+    // SCALE: 12 fields — two-digit positional indices, field names that are prefixes / extensions of one another.
+    // Tuple literals end with every index once (format! itself rejects unused positional arguments).
+    let tys = [FieldTy::U8, FieldTy::I32, FieldTy::SStr];
+    let wide = |names: &[&str], cover_all: bool| -> Vec<String> {
+        let tail = if cover_all { format!(" |{}", names.iter().rev().map(|n| format!("{{{}}}", n)).collect::<Vec<_>>().join(",")) } else { String::new() };
+        let mut l: Vec<String> = Vec::new();
+        for a in names {
+            l.push(format!("{{{}}}{}", a, tail));
+            l.push(format!("<{{{}:>4}}>{}", a, tail));
+        }
+        for a in names {
+            for b in names {
+                l.push(format!("{{{}}}{{{}}}{}", a, b, tail));
+                if th {
+                    l.push(format!("{{{}:?}}, {{{{{}}}}} {{{}}}{}", a, b, b, tail));
+                }
+            }
+        }
+        l.push(names.iter().map(|n| format!("{{{}}}", n)).collect::<Vec<_>>().join("/"));
+        l.push(names.iter().rev().map(|n| format!("{{{}:?}}", n)).collect::<Vec<_>>().join(""));
+        l
+    };
+    let idx: Vec<String> = (0..12).map(|i| i.to_string()).collect();
+    let idx_r: Vec<&str> = idx.iter().map(|s| s.as_str()).collect();
+    pack("tuple12", Kind::Tuple((0..12).map(|i| tys[i % 3].clone()).collect()), wide(&idx_r, true), &mut out);
+    let nm = ["x", "x1", "x10", "x_1", "xx", "a", "ab", "abc", "f0", "field0", "r", "s0_"];
+    pack("named12", Kind::Named(nm.iter().enumerate().map(|(i, n)| NamedField { name: n.to_string(), ty: tys[(i + 1) % 3].clone(), default_with: false }).collect()), wide(&nm, false), &mut out);
     out
 }
 
